@@ -417,3 +417,83 @@ func RuleG4(c *Ctx) {
 	}
 	c.FloorN("G4", 18, n, "fan-in points")
 }
+
+// ---------------------------------------------------------------------------
+// G8 acquire/release pairing on shared (package-level or captured-by-many) channels used as semaphores
+
+func RuleG8(c *Ctx) {
+	c.Rule("G8", "acquire/release pairing: a function that sends on a package-level channel (a semaphore/limiter shared by all calls) receives from it again on every path to every return - otherwise a slot leaks and later calls block forever; and nothing in the module sends on a package-level channel without such a release")
+	n := 0
+	for _, top := range c.P.TopFuncs() {
+		if inHelperPkg(top) {
+			continue
+		}
+		for _, fn := range core.Family(top) {
+			core.AllInstrs(fn, func(i ssa.Instruction) {
+				sd, ok := i.(*ssa.Send)
+				if !ok {
+					return
+				}
+				g := globalChan(sd.Chan)
+				if g == nil {
+					return
+				}
+				n++
+				key := fmt.Sprintf("%s:acquire:%s@%s", core.FnName(fn), g.Name(), c.relInFn(fn, sd.Pos()))
+				rel := core.NewCuts()
+				deferred := false
+				core.AllInstrs(fn, func(j ssa.Instruction) {
+					switch x := j.(type) {
+					case *ssa.UnOp:
+						if x.Op == token.ARROW && globalChan(x.X) == g {
+							rel.AddInstr(x)
+						}
+					case *ssa.Defer:
+						// defer func() { <-sem }()
+						if f, _ := closureOf(x.Call.Value); f != nil {
+							core.AllInstrs(f, func(k ssa.Instruction) {
+								if u, ok := k.(*ssa.UnOp); ok && u.Op == token.ARROW && globalChan(u.X) == g && core.Precedes(fn, sd, x) == false && core.CanReach(fn, sd, x) {
+									deferred = true
+								}
+							})
+						}
+					}
+				})
+				okAll := deferred
+				if !deferred {
+					okAll = !rel.Empty()
+					for _, r := range core.Returns(fn) {
+						if core.ReachableAvoiding(fn, sd, rel, r) {
+							okAll = false
+						}
+					}
+				}
+				c.Check(okAll, "G8", key, sd.Pos(), fmt.Sprintf("%s acquires a slot of the shared channel %s and can return without releasing it (e.g. on an error path): after enough such returns every later call blocks forever", core.FnName(fn), g.Name()), "every return after the acquire passes a release")
+			})
+		}
+	}
+	if n == 0 {
+		c.OK("G8", "no-shared-semaphores", 0, "no send on a package-level channel anywhere in the module")
+	}
+}
+
+func globalChan(v ssa.Value) *ssa.Global {
+	for d := 0; d < 6; d++ {
+		switch x := v.(type) {
+		case *ssa.UnOp:
+			if x.Op == token.MUL {
+				v = x.X
+				continue
+			}
+		case *ssa.Global:
+			if isChanType(x.Type().Underlying().(*types.Pointer).Elem()) {
+				return x
+			}
+		case *ssa.ChangeType:
+			v = x.X
+			continue
+		}
+		return nil
+	}
+	return nil
+}
